@@ -114,6 +114,11 @@ func genC19(t *rapid.T) *C19Case {
 		case 5, 6:
 			c.Steps = append(c.Steps, rig.Step{Op: "in", In: g.testRequest(fmt.Sprintf("t%d", i))})
 		case 7:
+			if rapid.IntRange(0, 2).Draw(t, "seqReset") == 0 {
+				// a SequenceReset (gap fill) from the peer: an inbound message like any other for the handlers
+				c.Steps = append(c.Steps, rig.Step{Op: "in", In: &rig.InMsg{Type: rig.TSequenceReset, Seq: g.seq(), Fields: []rig.Tok{rig.F(rig.TagGapFillFlag, "Y"), rig.F(rig.TagNewSeqNo, itoa(g.inSeq))}}})
+				break
+			}
 			c.Steps = append(c.Steps, rig.Step{Op: "in", In: g.app()})
 		case 8:
 			if rapid.Bool().Draw(t, "resendOrLogon") {
@@ -123,7 +128,13 @@ func genC19(t *rapid.T) *C19Case {
 				c.Steps = append(c.Steps, rig.Step{Op: "in", In: g.goodLogon(g.hb)})
 			}
 		default:
-			c.Steps = append(c.Steps, rig.Step{Op: "in", In: g.heartbeat("")})
+			m := g.heartbeat("")
+			if rapid.IntRange(0, 2).Draw(t, "secondMsgType") == 0 {
+				// a second field with the MsgType tag further on (a malformed message, or a data field that
+				// quotes one): the message's type is its MsgType field, the first one
+				m.Fields = append(m.Fields, rig.F(rig.TagMsgType, rapid.SampledFrom([]string{rig.TMDReject, rig.TTestRequest, rig.TReject, "D"}).Draw(t, "secondType")))
+			}
+			c.Steps = append(c.Steps, rig.Step{Op: "in", In: m})
 		}
 	}
 	c.MaxHB = g.maxHB
